@@ -118,11 +118,11 @@ Definition bump (L : ledger) (w : Z) : ledger :=
 Definition valid_weight (L : ledger) (w : Z) : bool :=
   if weight L <? throughput L then true else wrap (weight L - throughput L) <=? w.
 
-(* delete an invalid tip: DeleteVertex + removeTrxInVertex + updateWeightAndThroughput *)
-Definition drop_tip (L : ledger) (n : node) : ledger :=
+(* delete an invalid tip: DeleteVertex + removeTrxInVertex (+ updateWeightAndThroughput in getValidLeaves) *)
+Definition rm_tip (L : ledger) (n : node) : ledger :=
   let L1 := set_dag L (del_node (nhash n) (dag L)) in
-  let L2 := set_index L1 (assoc_del (t_hash (v_trx (nv n))) (index L1)) in
-  bump L2 (v_weight (nv n)).
+  set_index L1 (assoc_del (t_hash (v_trx (nv n))) (index L1)).
+Definition drop_tip (L : ledger) (n : node) : ledger := bump (rm_tip L n) (v_weight (nv n)).
 
 (* ---------------------------------------------------------------- founds.go *)
 (* pourFunds: returns None on a Supply error *)
@@ -293,7 +293,7 @@ Fixpoint link_parents (L : ledger) (v : vertex) (rep : Z) (hs : list N) (acc : l
       if negb (has_child L h) then
         match validate L p b with
         | (VOk, b') => link_parents (bump L (v_weight (nv p))) v rep rest (acc ++ [h]) b'
-        | (_, b') => ((set_index (set_dag L (del_node h (dag L))) (assoc_del (t_hash (v_trx (nv p))) (index L)), RRejected, acc), b')
+        | (_, b') => ((rm_tip L p, RRejected, acc), b')
         end
       else link_parents L v rep rest (acc ++ [h]) b
     end
